@@ -9,6 +9,7 @@ import (
 	"os"
 	"path/filepath"
 	"strings"
+	"syscall"
 	"time"
 
 	api "github.com/polydawn/go-timeless-api"
@@ -144,6 +145,8 @@ func clashEngine(c *Ctx) {
 				clashExec(c, op)
 			} else if strings.HasPrefix(op, "unplaceable ") {
 				unplaceableExec(c, op)
+			} else if strings.HasPrefix(op, "latefault ") {
+				lateFaultExec(c, op)
 			}
 		}
 		return
@@ -155,6 +158,7 @@ func clashEngine(c *Ctx) {
 		for k := 0; k < 5; k++ {
 			unplaceableExec(c, fmt.Sprintf("unplaceable %s %d", fm, k))
 		}
+		lateFaultExec(c, "latefault "+fm)
 	}
 }
 
@@ -278,5 +282,120 @@ func unplaceableExec(c *Ctx, op string) {
 			}
 			c.PropFail("uncategorized-error", fmt.Sprintf("unpack (%s) of an archive whose entries no file system can hold fails with an error outside the documented categories (a CLI has no exit code for it): %s: %s", pm, catOf(uerr), msg), op)
 		}
+	}
+}
+
+// latefault: the file system under the destination turns read-only while an unpack is in its last phase — every entry is
+// placed, the closing pass over the directories (their mtimes) is under way. Thousands of directories make that pass long;
+// a watcher remounts the destination's tmpfs read-only the moment the archive's last entry shows up. Whatever the unpack
+// answers then, an error carries a documented category. Recipe: "latefault <tar|zip>".
+func lateFaultExec(c *Ctx, op string) {
+	c.Begin(op)
+	fmtName := strings.Fields(op)[1]
+	c.EmitR(op, "skip", "skip")
+	var buf bytes.Buffer
+	t0 := time.Unix(1e9, 0)
+	const nd = 5000
+	if fmtName == "tar" {
+		tw := tar.NewWriter(&buf)
+		tw.WriteHeader(&tar.Header{Name: "./", Typeflag: tar.TypeDir, Mode: 0755, ModTime: t0})
+		for i := 0; i < nd; i++ {
+			tw.WriteHeader(&tar.Header{Name: fmt.Sprintf("./d%05d/", i), Typeflag: tar.TypeDir, Mode: 0755, ModTime: t0})
+		}
+		tw.WriteHeader(&tar.Header{Name: "./zz-last", Typeflag: tar.TypeReg, Mode: 0644, ModTime: t0, Size: 1})
+		tw.Write([]byte("x"))
+		tw.Close()
+	} else {
+		zw := zip.NewWriter(&buf)
+		mk := func(n string, dir bool) {
+			h := &zip.FileHeader{Name: n, Method: zip.Store, Modified: t0}
+			if dir {
+				h.SetMode(os.ModeDir | 0755)
+			} else {
+				h.SetMode(0644)
+			}
+			w, _ := zw.CreateHeader(h)
+			if !dir {
+				w.Write([]byte("x"))
+			}
+		}
+		mk("./", true)
+		for i := 0; i < nd; i++ {
+			mk(fmt.Sprintf("d%05d/", i), true)
+		}
+		mk("zz-last", false)
+		zw.Close()
+	}
+	fn := funcsFor(fmtName)
+	uf := api.MustParseFilesetUnpackFilter(losslessUnpackStr)
+	for round := 0; round < 3; round++ {
+		caseCounter++
+		base := filepath.Join(c.Work, fmt.Sprintf("lf%d", caseCounter))
+		mnt := filepath.Join(base, "mnt")
+		os.MkdirAll(mnt, 0755)
+		ware := filepath.Join(base, "ware")
+		os.WriteFile(ware, buf.Bytes(), 0644)
+		os.Setenv("RIO_CACHE", filepath.Join(base, "cache"))
+		src := api.WarehouseLocation("file://" + ware)
+		sid, serr, _ := safeCall(func() (api.WareID, error) {
+			return fn.scan(context.Background(), api.PackType(fmtName), uf, rio.Placement_None, src, rio.Monitor{})
+		})
+		if serr != nil || syscall.Mount("tmpfs", mnt, "tmpfs", 0, "size=64m") != nil {
+			c.H("latefault:skipped")
+			rmrf(base)
+			return
+		}
+		dst := filepath.Join(mnt, "dst")
+		stop := make(chan struct{})
+		done := make(chan bool, 1)
+		go func() {
+			for {
+				select {
+				case <-stop:
+					done <- false
+					return
+				default:
+				}
+				if _, e := os.Lstat(filepath.Join(dst, "zz-last")); e == nil {
+					deadline := time.Now().Add(2 * time.Second)
+					for time.Now().Before(deadline) {
+						if syscall.Mount("tmpfs", mnt, "tmpfs", syscall.MS_REMOUNT|syscall.MS_RDONLY, "size=64m") == nil {
+							done <- true
+							return
+						}
+					}
+					done <- false
+					return
+				}
+			}
+		}()
+		_, uerr, upan := safeCall(func() (api.WareID, error) {
+			return fn.unpack(context.Background(), sid, dst, uf, rio.Placement_Direct, []api.WarehouseLocation{src}, rio.Monitor{})
+		})
+		close(stop)
+		remounted := <-done
+		c.H(fmt.Sprintf("latefault:%s:remounted=%v:%s", fmtName, remounted, strings.Join(strings.Fields(resTok(api.WareID{}, uerr, upan))[:min(2, len(strings.Fields(resTok(api.WareID{}, uerr, upan))))], "_")))
+		if upan != "" {
+			c.PropFail("unpack-panic", "an unpack whose destination turned read-only in its last phase panicked: "+upan, op)
+		} else if uerr != nil {
+			ok := strings.HasPrefix(catOf(uerr), "rio-")
+			func() {
+				defer func() {
+					if recover() != nil {
+						ok = false
+					}
+				}()
+				rio.ExitCodeForError(uerr)
+			}()
+			if !ok {
+				msg := uerr.Error()
+				if len(msg) > 300 {
+					msg = msg[:300]
+				}
+				c.PropFail("uncategorized-error", fmt.Sprintf("the destination turned read-only while the %s unpack was in its closing pass: the error is outside the documented categories (a CLI has no exit code for it): %s: %s", fmtName, catOf(uerr), msg), op)
+			}
+		}
+		syscall.Unmount(mnt, syscall.MNT_DETACH)
+		rmrf(base)
 	}
 }
